@@ -786,6 +786,29 @@ impl Thread {
         Ok(ptr.root_thread())
     }
 
+    /// Clones `value` into the heap that a mutable cell (a reference or a lazy value) owned by `self`
+    /// lives in: the global heap if the cell is part of the value of a module (`in_global_heap`),
+    /// otherwise the heap of `self`.
+    ///
+    /// The global heap is older than the heap of every thread and the collector of a thread does
+    /// not trace older heaps, so a cell in the global heap must never point into the heap of a thread
+    pub(crate) fn deep_clone_value_for_cell(
+        &self,
+        in_global_heap: bool,
+        owner: &Thread,
+        value: &Value,
+    ) -> Result<RootedValue<&Thread>> {
+        if in_global_heap {
+            let mut gc = self.global_env().gc.lock().unwrap();
+            let mut cloner = crate::value::Cloner::new(self, &mut gc);
+            let value = cloner.deep_clone(value)?;
+            // SAFETY `value` lives in the global heap which is never collected
+            unsafe { Ok(self.root_value_with_self(value.get_value())) }
+        } else {
+            self.deep_clone_value(owner, value)
+        }
+    }
+
     /// Roots `self`, extending the lifetime of this thread until at least the returned
     /// `RootedThread` is droppped
     pub fn root_thread(&self) -> RootedThread {
